@@ -1363,6 +1363,31 @@ namespace c14
                         VP_CHECK(out[i].size() <= SPLIT_S, "size_exceeds_N:split",
                                  "token %zu has size()=%zu > capacity %zu", i, (size_t)out[i].size(),
                                  (size_t)SPLIT_S);
+                    {
+                        // "excess input is dropped keeping the prefix": the result holds the first SPLIT_V tokens, in order,
+                        // each cut to its first SPLIT_S characters
+                        std::vector<std::string> want;
+                        std::string cur;
+                        for (size_t i = 0; i <= ref.size(); i++)
+                        {
+                            if (i < ref.size() && ref[i] != delim)
+                            {
+                                cur += ref[i];
+                                continue;
+                            }
+                            if (!cur.empty() && want.size() < SPLIT_V)
+                                want.push_back(cur.substr(0, SPLIT_S));
+                            cur.clear();
+                        }
+                        bool same = out.size() == want.size();
+                        for (size_t i = 0; same && i < want.size(); i++)
+                            same = std::string(out[i].c_str(), out[i].size()) == want[i];
+                        std::string got_s;
+                        for (size_t i = 0; i < out.size(); i++)
+                            got_s += "[" + show(std::string(out[i].c_str(), out[i].size())) + "]";
+                        VP_CHECK(same, "content:split", "split of %s gives %zu tokens %s; the first %zu tokens (each cut to %zu characters) are expected", show(ref).c_str(),
+                                 (size_t)out.size(), got_s.c_str(), (size_t)SPLIT_V, (size_t)SPLIT_S);
+                    }
                     check("split");
                 }
                 break;
